@@ -306,7 +306,7 @@ open AdaVerif.Model.ParseSpecial AdaVerif.Model.UrlRec AdaVerif.Lemmas.UR in
     holding `u` becomes the object holding the Standard's href-setter result when the value and the normalized href fit the
     limit, and stays untouched otherwise (same side condition and IDNA parameter as `Props.C01.parser_no_base_partial`) -/
 theorem url_set_href_end_to_end_partial (idna : Idna) (L : Nat) (u : Url) (v : Bytes) (hid : ∀ d, AdaVerif.Lemmas.HP.IdnaAt idna d)
-    (hclean : AdaVerif.Lemmas.HS.bracketClean (schemeSpecial v) false (hostStart v) = true) :
+    (hclean : AdaVerif.Lemmas.BR.bracketOk (schemeSpecial v) (hostStart v) = true) :
     setHrefR idna L (recOf u) v =
       match parse idna v none with
       | some n => if v.length ≤ L ∧ getHrefSize (recOf n) ≤ L then (recOf n, true) else (recOf u, false)
@@ -316,7 +316,7 @@ theorem url_set_href_end_to_end_partial (idna : Idna) (L : Nat) (u : Url) (v : B
 open AdaVerif.Model.ParseSpecial AdaVerif.Model.UrlRec AdaVerif.Lemmas.UR in
 /-- … which is `Spec.setHref` when nothing is refused for size -/
 theorem url_set_href_is_setHref (idna : Idna) (u : Url) (v : Bytes) (L : Nat) (hid : ∀ d, AdaVerif.Lemmas.HP.IdnaAt idna d)
-    (hclean : AdaVerif.Lemmas.HS.bracketClean (schemeSpecial v) false (hostStart v) = true)
+    (hclean : AdaVerif.Lemmas.BR.bracketOk (schemeSpecial v) (hostStart v) = true)
     (hfit : v.length ≤ L ∧ getHrefSize (recOf (setHref idna u v)) ≤ L) :
     (setHrefR idna L (recOf u) v).1 = recOf (setHref idna u v) := by
   rw [url_set_href_end_to_end_partial idna L u v hid hclean]
@@ -333,7 +333,7 @@ open AdaVerif.Model.ParseSpecial AdaVerif.Model.ParseAgg AdaVerif.Model.UrlRec A
     `ada::url`'s in `Props.C04.parse_agrees`), its size checks on `buffer.size()`, and the take-over: the buffer that
     lays out `u`'s fields becomes the buffer that lays out the Standard's href-setter result, or stays as it is -/
 theorem aggregator_set_href_end_to_end_partial (idna : Idna) (L : Nat) (u : Url) (v : Bytes) (hid : ∀ d, AdaVerif.Lemmas.HP.IdnaAt idna d)
-    (hclean : AdaVerif.Lemmas.HS.bracketClean (schemeSpecial v) false (hostStart v) = true) :
+    (hclean : AdaVerif.Lemmas.BR.bracketOk (schemeSpecial v) (hostStart v) = true) :
     setHrefA idna L (layout (toL (recOf u))) v =
       match parse idna v none with
       | some n => if v.length ≤ L ∧ getHrefSize (recOf n) ≤ L then (layout (toL (recOf n)), true) else (layout (toL (recOf u)), false)
